@@ -15,7 +15,7 @@ import (
 	"time"
 )
 
-const c02Rule = "byte strings from three streams: (a) structure-aware mutations of valid encodings of generated profiles (19 named strategies: length-prefix edits, id 0 / duplicate ids, dangling references, out-of-table string indices, function removed behind a line, duplicated fields, concatenations, value-count edits, wire-type edits, string-table edits, over-long varints, bit flips, truncations, …), (b) random wire-format field soups, (c) legacy inputs: mutated repository test inputs (text: value-level edits of the numeric columns of records and headers — one column 0 / 1 / negative / huge / overflowing while its neighbours stay ordinary, all-but-one zero, all zero — edits of the trailing memory map (mapping name patterns such as empty / only \"(deleted)\" / \"[\" / bracketed / .so variants / very long / non-UTF-8, permissions, offsets, adjacent, overlapping, inverted and extreme ranges, attribute and log-prefix lines, /proc/maps and brief forms), plus line/number/hex edits; binary CPU: word-level edits of nstk/count/header/end marker) and legacy documents of every flavour (heap, heap_v2, heapz_v2, growth, fragmentation, contentionz, mutex, threadz, count, java heapz, java contentionz, binary CPU) printed with every numeric column drawn from the same per-record value patterns and a generated trailing memory map of the same dimensions; (h) a header-field grid of valid symbolized profiles (drop_frames / keep_frames each empty, valid, invalid, match-all × default_sample_type empty/known/unknown × doc_url × period_type × comments), each also through the real binary; each of (a)-(c) also wrapped in valid and corrupt gzip. Every accepted profile goes through Write/Copy/Compact/String, the driver's post-parse pipeline (RemoveUninteresting, CheckValid, NumLabelUnits, SampleIndexByName, nil and match-all filters, Scale/ScaleN, Normalize+Scale(-1)+Merge with itself, label edits, Aggregate at 8 granularities) and 11 in-process reports. Non-trivial = reaches a mechanism the property anchors: the input is accepted; or the protobuf decoder got far enough to reject it at a bounds/type/string-index/concatenation check; or it parsed and the validity gate rejected it; or a legacy parser recognised the format (accepted or failed inside it). Distinct by input bytes."
+const c02Rule = "byte strings from three streams: (a) structure-aware mutations of valid encodings of generated profiles (19 named strategies: length-prefix edits, id 0 / duplicate ids, dangling references, out-of-table string indices, function removed behind a line, duplicated fields, concatenations, value-count edits, wire-type edits, string-table edits, over-long varints, bit flips, truncations, …), (b) random wire-format field soups, (c) legacy inputs: mutated repository test inputs (text: value-level edits of the numeric columns of records and headers — one column 0 / 1 / negative / huge / overflowing while its neighbours stay ordinary, all-but-one zero, all zero — edits of the trailing memory map (mapping name patterns such as empty / only \"(deleted)\" / \"[\" / bracketed / .so variants / very long / non-UTF-8, permissions, offsets, adjacent, overlapping, inverted and extreme ranges, attribute and log-prefix lines, /proc/maps and brief forms), plus line/number/hex edits; binary CPU: word-level edits of nstk/count/header/end marker) and legacy documents of every flavour (heap, heap_v2, heapz_v2, growth, fragmentation, contentionz, mutex, threadz, count, java heapz, java contentionz, binary CPU) printed with every numeric column drawn from the same per-record value patterns and a generated trailing memory map of the same dimensions; (h) a header-field grid of valid symbolized profiles (drop_frames / keep_frames each empty, valid, invalid, match-all × default_sample_type empty/known/unknown × doc_url × period_type × comments), each also through the real binary; each of (a)-(c) also wrapped in valid and corrupt gzip. (v) valid symbolized profiles with degenerate value columns (all zero, cancelling per column, zero first/last column, MinInt64/MaxInt64, single sample, -1 divisor column, diff-base labels): every report kind × 26 assignments of the numeric options (-mean, -divide_by tiny…huge/negative, -sample_index by position/name/unknown, -drop_negative, -unit) in-process and a sample of the cross through the real binary, also with -base/-diff_base -normalize of the profile itself. Every accepted profile goes through Write/Copy/Compact/String, the driver's post-parse pipeline (RemoveUninteresting, CheckValid, NumLabelUnits, SampleIndexByName, nil and match-all filters, Scale/ScaleN, Normalize+Scale(-1)+Merge with itself, label edits, Aggregate at 8 granularities) and 11 in-process reports with default options plus three (report kind, numeric option assignment) pairs chosen by a hash of the profile, one of them always with -mean. Non-trivial = reaches a mechanism the property anchors: the input is accepted; or the protobuf decoder got far enough to reject it at a bounds/type/string-index/concatenation check; or it parsed and the validity gate rejected it; or a legacy parser recognised the format (accepted or failed inside it). Distinct by input bytes."
 
 // The generated run and every replay execute in a CHILD process with a capped address space:
 // an unrecoverable runtime error of the code under test (stack overflow, out of memory,
@@ -226,6 +226,9 @@ func runC02(c *Ctx) {
 			return
 		}
 		o := c02Check(c, raw, cs.Stream, cs.CLI)
+		if len(cs.Cmds) > 0 && o.accepted {
+			c02CLI(c, raw, cs.Stream, cs.Cmds)
+		}
 		c.Res.Count(cs.Bytes, classify(o))
 		os.Remove(filepath.Join(c.Dir, "inflight.json"))
 		return
@@ -406,6 +409,41 @@ func runC02(c *Ctx) {
 			c02CLI(c, raw, "h:header-grid", []string{"-top", c02CLICommands[r.Intn(len(c02CLICommands))]})
 		}
 	}
+	// (v) degenerate value columns: valid symbolized profiles whose columns are all zero, cancel
+	// to zero, have a zero first / last column, MinInt64 / MaxInt64, a single sample, …; every
+	// report kind × every numeric option assignment in-process, and a sample of the cross
+	// (always including -mean) through the real binary, also with the profile as its own base
+	nv := 3 * len(c02ValuePatterns)
+	if scale > 1 {
+		nv = 12 * len(c02ValuePatterns)
+	}
+	for i := 0; i < nv && !aborted; i++ {
+		pat := c02ValuePatterns[i%len(c02ValuePatterns)]
+		p := c02ValueProfile(r, pat)
+		raw, pn := c02WriteU(p)
+		if pn != "" {
+			continue
+		}
+		c.Res.Hit("v-pattern:" + pat)
+		one(raw, "v:values")
+		if i < len(c02ValuePatterns) || scale > 1 && i%4 == 0 {
+			var cmds []string
+			add := func(kind string, o c02ROpt, extra ...string) {
+				if fl, ok := c02CLIFlags(p, o); ok {
+					cmds = append(cmds, strings.Join(append(append([]string{kind}, fl...), extra...), "\x1f"))
+				}
+			}
+			add(c02CLICommands[r.Intn(len(c02CLICommands))], c02ROpts[r.Intn(c02NMeanOpts)])
+			add("-top", c02ROpts[0])
+			for k := 0; k < 3; k++ {
+				add(c02CLICommands[r.Intn(len(c02CLICommands))], c02ROpts[r.Intn(len(c02ROpts))])
+			}
+			add(c02CLICommands[r.Intn(len(c02CLICommands))], c02ROpts[r.Intn(len(c02ROpts))], "-normalize", "-diff_base={file}")
+			add("-top", c02ROpt{}, "-base={file}")
+			c.Res.Hit("cli:inputs")
+			c02CLI(c, raw, "v:values", cmds)
+		}
+	}
 	// a few fixed degenerate inputs
 	for _, raw := range [][]byte{nil, {}, {0}, {0x1f}, {0x1f, 0x8b}, {0x1f, 0x8b, 8}, bytes.Repeat([]byte{0xff}, 64), bytes.Repeat([]byte{0x80}, 64), bytes.Repeat([]byte{0x0a}, 1000), []byte("\n"), []byte("heap profile: "), c02Gzip(nil)} {
 		one(raw, "fixed")
@@ -421,6 +459,20 @@ func runC02(c *Ctx) {
 		if c.Scale == 1 { // quick: three commands per input
 			cmds = []string{c02CLICommands[r.Intn(len(c02CLICommands))], c02CLICommands[r.Intn(len(c02CLICommands))], "-top"}
 		}
+		// numeric options on half of the commands (index-form sample_index only: no profile at hand)
+		cmds = append([]string(nil), cmds...)
+		for j := range cmds {
+			if r.Bool() {
+				o := c02ROpts[r.Intn(len(c02ROpts))]
+				if strings.HasPrefix(o.sampleIndex, "@") || strings.HasPrefix(o.sampleIndex, "#") {
+					o.sampleIndex = "0"
+				}
+				if fl, ok := c02CLIFlags(nil, o); ok && len(fl) > 0 {
+					cmds[j] += "\x1f" + strings.Join(fl, "\x1f")
+				}
+			}
+		}
+		cmds = append(cmds, "-top\x1f-mean")
 		c.Res.Hit("cli:inputs")
 		c02CLI(c, a.raw, a.stream, cmds)
 	}
